@@ -332,6 +332,7 @@ fn plain_ops(cfg: &Cfg, grp: &str, case: u64, rng: &mut Rng, rep: &mut Report, n
     let sname = spec.scheme_name(); let n = kit.n(); let nl = kit.levels.len(); let ev = &kit.eval;
     let scale = 2f64.powi(rng.range(10, 24) as i32);
     let no_trace: Vec<String> = vec![];
+    rep.count("plain_ops_params", &format!("{}|N={:05}|primes={}", sname, n, spec.qs.len()));
     // a ciphertext per level for the "accepted by a later operation" clause
     let base_ct = if scheme == SchemeType::CKKS {
         let vals: Vec<C64> = (0..n / 2).map(|j| C64::new((j % 7) as f64 - 3.0, 0.5)).collect();
